@@ -38,7 +38,10 @@ def readSetup (j : Json) : J.R Req := do
   let u ← J.field j "u" (J.mat J.rat)
   let genpos ← J.field j "genpos" (J.list J.rat)
   let mname ← J.field j "mapfn" J.str
-  let mapfn ← mapfnOf mname
+  -- `table`: the recombination matrix itself is supplied (real Haldane function at arbitrary float positions,
+  -- r_ij computed by the harness with its own exp from |g_i - g_j|)
+  let rmat ← J.fieldD j "rmat" (J.mat J.rat) []
+  let mapfn ← if mname == "table" then pure (fun (_ : Rat) => (0 : Rat)) else mapfnOf mname
   let chrs ← J.field j "chr" (J.list pairs)
   let mem ← J.fieldOpt j "mem" J.nat
   let nself ← nselfOf j "nself"
@@ -47,7 +50,8 @@ def readSetup (j : Json) : J.R Req := do
   if mname == "pow2" && genpos.any (fun g => (2 * g).den != 1) then J.fail "pow2 needs 2*genpos integral" else
   if mem == some 0 then J.fail "mem = 0 (range() arg 3 must not be zero)" else
   pure { S := { g0 := at2 p0, g1 := at2 p1, u := at2 u,
-                r := fun i k => mapfn (absR (genpos.getD i 0 - genpos.getD k 0)),
+                r := if mname == "table" then at2 rmat
+                     else fun i k => mapfn (absR (genpos.getD i 0 - genpos.getD k 0)),
                 chrs := chrs, mem := mem, nself := nself },
          ntaxa := p0.length, nvrnt := genpos.length, ntrait := (u.getD 0 []).length }
 
@@ -84,6 +88,24 @@ def opGenic : J.Op := fun j => do
         tr (genic3 q.S q.nvrnt ploidy r f m)) ix) ix) ix
   | "four" => pure <| J.ofList (fun f2 => J.ofList (fun m2 => J.ofList (fun f1 => J.ofList (fun m1 =>
         tr (genic4 q.S q.nvrnt ploidy f2 m2 f1 m1)) ix) ix) ix) ix
+  | _ => J.fail s!"unknown scheme {scheme}"
+
+/-- the literal loop transcription (zeros, accumulation loops, scaling, mirror loop) instead of the closed forms -/
+def opVmatLoop : J.Op := fun j => do
+  let q ← readSetup j
+  let scheme ← J.field j "scheme" J.str
+  let cov ← J.fieldD j "cov" J.bool false
+  let n := q.ntaxa
+  let ix := List.range n
+  let S := q.S
+  let cell (M : Nat → Nat → List ((Nat × Nat) × Rat)) (f m : Nat) : Json := traitCell cov q.ntrait (fun s t => getAt (M s t) (f, m))
+  match scheme with
+  | "two" => pure <| J.ofList (fun f => J.ofList (fun m => cell (fun s t => S.twoWayLoop n s t) f m) ix) ix
+  | "dihybrid" => pure <| J.ofList (fun f => J.ofList (fun m => cell (fun s t => S.dihybridLoop n s t) f m) ix) ix
+  | "three" => pure <| J.ofList (fun r => J.ofList (fun f => J.ofList (fun m =>
+        cell (fun s t => S.threeWayLoop n r s t) f m) ix) ix) ix
+  | "four" => pure <| J.ofList (fun f2 => J.ofList (fun m2 => J.ofList (fun f1 => J.ofList (fun m1 =>
+        cell (fun s t => S.fourWayLoop n f2 m2 s t) f1 m1) ix) ix) ix) ix
   | _ => J.fail s!"unknown scheme {scheme}"
 
 def opUtil : J.Op := fun j => do
@@ -139,8 +161,7 @@ def opSpecEnum : J.Op := fun j => do
   let want ← readEnum j
   let impl ← J.field j "impl" J.rat
   let tol ← J.fieldD j "tol" J.rat (1 / 1000000000)
-  let scale := if absR want < 1 then 1 else absR want
-  let ok := decide (absR (impl - want) ≤ tol * scale)
+  let ok := specClose impl want tol
   pure <| J.obj [("ok", J.ofBool ok), ("enum", J.ofRat want)]
 
 def opValidate : J.Op := fun j => do
@@ -154,7 +175,7 @@ def opValidate : J.Op := fun j => do
   | .error .value => pure (J.ofStr "value")
 
 def ops : List (String × J.Op) :=
-  [("c12.vmat", opVmat), ("c12.genic", opGenic), ("c12.util", opUtil), ("c12.chunks", opChunks),
+  [("c12.vmat", opVmat), ("c12.vmat_loop", opVmatLoop), ("c12.genic", opGenic), ("c12.util", opUtil), ("c12.chunks", opChunks),
    ("c12.enum", opEnum), ("c12.spec_enum", opSpecEnum), ("c12.validate", opValidate)]
 
 end Drv.C12
